@@ -179,6 +179,7 @@ void Hist::hello(int c) {
 void Hist::compare_all(Out& out, int caller, uint32_t serial, const char* what) {
   for (size_t j = 0; j < bus.nclients(); j++) {
     if (!bus.client((int)j).open()) continue;
+    if (j < model.conns.size() && model.conns[j].monitor) continue;   // monitors are checked by their own oracle
     auto fr = bus.drain((int)j);
     std::vector<Exp>& want = out[(int)j];
     if (bus.client((int)j).eof && model.conns[j].alive) fail("disconnected", "client" + std::to_string(j) + " was disconnected by the bus " + what);
